@@ -6,6 +6,18 @@ import os
 ROOT = os.path.dirname(os.path.dirname(os.path.abspath(__file__)))
 
 CLAIMED = {
+    "C01": dict(
+        technique="Hypothesis property tests over generated model graphs and conditioning programs: metamorphic relation (reduced object vs joint) + independent reference sum of factor log-densities + required refusals",
+        text="For generated hierarchical graphs (hyper-parameters entering through one- and two-argument named callables, Gaussian/GMRF/"
+             "LMRF/CMRF/Laplace/Normal latents, Gaussian/Normal/Laplace/Lognormal data over matrix, function-pair, non-linear and "
+             "plain-callable forward maps), a complete assignment, a fixed/free partition and a conditioning program (order, grouping into "
+             "calls, positional vs keyword, final evaluation mode), the reduced object's logd at the free values must equal the joint logd "
+             "at the complete assignment and the sum of scipy/docstring reference log-densities; one-step vs several-step routes, the "
+             "stacked-vector view, Posterior / MultipleLikelihoodPosterior via JointDistribution and BayesianProblem(set_data) must give "
+             "the same number; evaluations with missing, unknown, doubly specified or surplus arguments must raise.",
+        note="Trusted: scipy.stats reference densities and the C20 reference stencils. Names always given explicitly. One recorded finding "
+             "(conditioning an already reduced Posterior on its last variable raises) is excluded and counted.",
+        design="3/C01"),
     "C03": dict(
         technique="Hypothesis property tests: gradient vs Richardson-extrapolated central differences of the same object's logd; required non-finite outside the support; refusal accepted",
         text="For generated distributions (all families/parameterisations, Gaussian forms on both sides of the sparse switch, MRFs over "
